@@ -57,7 +57,7 @@ RecPort == LET ds == DS  s == PreP \o ds  fits == LessEq(Val(ds), PortMaxW) IN
    src |-> "decl", prop |-> "C10"]
 
 \* q: integer part ip, optional '.', decimals dp.  Valid iff value <= 1.000 with at most three decimals.
-QInts == <<<<>>, <<48>>, <<49>>, <<50>>, <<48, 48, 49>>, <<49, 48>>, DigitStrings[Len(DigitStrings)], <<48,48,48,48,48,48,48,48,48,48,48,48,48,48,48,48,48,48,48,48,48,48,49>>,
+QInts == QWrapInts \o <<<<>>, <<48>>, <<49>>, <<50>>, <<48, 48, 49>>, <<49, 48>>, DigitStrings[Len(DigitStrings)], <<48,48,48,48,48,48,48,48,48,48,48,48,48,48,48,48,48,48,48,48,48,48,49>>,
            <<49,56,52,52,54,55,52,52,48,55,51,55,48,57,53,53,49,54,49,55>> >>
 QDecs == <<<<>>, <<48>>, <<53>>, <<48, 53>>, <<48, 48, 53>>, <<57, 57, 57>>, <<48, 48, 48>>, <<48, 48, 49>>, <<53, 48, 48, 48>>, <<48, 48, 48, 48>>, <<49, 50, 51, 52>> >>
 QCases == { <<i, dot, j>> : i \in 1..Len(QInts), dot \in {0, 1}, j \in 1..Len(QDecs) }
